@@ -347,11 +347,66 @@ func c07NumText(r gen.R) string {
 	}
 }
 
+// c07OctalLit: legacy octal escapes (\N, \NN, \NNN as far as the grammar lets
+// them reach) mixed with what may follow them without being absorbed: an escape
+// that denotes a digit, a raw non-digit, another octal escape of maximal length.
+func c07OctalLit(r gen.R) c07Lit {
+	q := []string{"\"", "'"}[r.Intn(2, "oq")]
+	var src strings.Builder
+	var units []uint16
+	for i, n := 0, 1+r.Intn(4, "noct"); i < n; i++ {
+		d1 := r.Intn(8, "od1")
+		digits := []int{d1}
+		maxLen := 3
+		if d1 >= 4 {
+			maxLen = 2
+		}
+		for k := 1; k < maxLen && r.Intn(3, "omore") > 0; k++ {
+			digits = append(digits, r.Intn(8, "od"))
+		}
+		v := 0
+		src.WriteByte('\\')
+		for _, d := range digits {
+			v = v*8 + d
+			src.WriteByte(byte('0' + d))
+		}
+		units = append(units, uint16(v))
+		// what follows must not be a raw digit (it would be absorbed or change the reading)
+		switch r.Intn(5, "ofollow") {
+		case 0:
+			d := r.Intn(10, "odigit")
+			fmt.Fprintf(&src, "\\x3%d", d)
+			units = append(units, uint16('0'+d))
+		case 1:
+			d := r.Intn(10, "odigit")
+			fmt.Fprintf(&src, "\\u003%d", d)
+			units = append(units, uint16('0'+d))
+		case 2:
+			d := r.Intn(10, "odigit")
+			fmt.Fprintf(&src, "\\u{3%d}", d)
+			units = append(units, uint16('0'+d))
+		case 3:
+			c := "abxyz -+._"[r.Intn(10, "oraw")]
+			src.WriteByte(c)
+			units = append(units, uint16(c))
+		default:
+			if len(digits) < maxLen {
+				src.WriteByte('_')
+				units = append(units, '_')
+			}
+		}
+	}
+	return c07Lit{Src: q + src.String() + q, Units: units, Known: true}
+}
+
 func c07Gen(t *rapid.T, rec *evid.Recorder) c07Case {
 	r := gen.R{T: t}
 	var lits []c07Lit
 	for i, n := 0, 1+r.Intn(8, "nlits"); i < n; i++ {
-		switch r.Pick("litkind", 6, 2, 3) {
+		switch r.Pick("litkind", 6, 2, 3, 1) {
+		case 3:
+			rec.Class("literal:legacy-octal-sequence")
+			lits = append(lits, c07OctalLit(r))
 		case 0:
 			s := r.RichStr(12)
 			for f := range gen.PieceFamilies(s) {
